@@ -87,20 +87,21 @@ Mix ==
                              "KnockOutModelGenes", "RemoveGenes", "RenameGene", "RenameReaction", "RenameMetabolite",
                              "SetObjective", "SetObjCoef", "SetDirection", "SetMedium", "GetMedium", "SwitchSolver",
                              "AddUserCons", "AddUserVar", "RemoveUserCons", "RemoveUserVar", "AddGroup", "RemoveGroup",
-                             "Copy", "Enter", "Exit", "RoundTrip", "DetachedSetBounds">>
+                             "Copy", "Enter", "Exit", "RoundTrip", "DetachedSetBounds", "RxnArith", "Merge">>
     [] Profile = "ctx" -> <<"Enter", "Enter", "Enter", "Exit", "Exit", "Exit", "AddReactions", "RemoveReactions",
                             "RemoveReactions", "AddMetabolites", "RemoveMetabolites", "AddBoundary", "RxnAddMetabolites",
                             "RxnAddMetabolites", "RxnSubtractMetabolites", "RxnIMul", "RxnIAdd", "RxnISub", "SetLB", "SetUB",
                             "SetBounds", "RxnKnockOut", "SetRule", "GeneKnockOut", "KnockOutModelGenes", "RemoveGenes",
                             "RenameGene", "SetObjective", "SetObjCoef", "SetDirection", "SetMedium", "SwitchSolver",
                             "AddUserCons", "AddUserVar", "RemoveUserCons", "RemoveUserVar", "Helper", "Helper",
-                            "DetachedSetBounds", "DetachedSetBounds">>
+                            "DetachedSetBounds", "DetachedSetBounds", "Copy", "Merge">>
     [] Profile = "ko" -> <<"GeneKnockOut", "GeneKnockOut", "GeneKnockOut", "KnockOutModelGenes", "KnockOutModelGenes",
                            "RxnKnockOut", "SetRule", "SetRule", "Enter", "Exit", "SetBounds", "AddReactions">>
     [] Profile = "copy" -> <<"Copy", "Copy", "AddReactions", "RemoveReactions", "RemoveMetabolites", "RxnAddMetabolites",
                              "RxnIMul", "SetBounds", "SetRule", "GeneKnockOut", "RemoveGenes", "RenameGene", "RenameReaction",
                              "RenameMetabolite", "SetObjective", "SetDirection", "SetMedium", "AddUserCons", "AddGroup",
-                             "RemoveGroup", "Annotate", "Annotate", "Annotate", "Analyze", "Enter", "Exit", "SwitchSolver">>
+                             "RemoveGroup", "Annotate", "Annotate", "Annotate", "Analyze", "Enter", "Exit", "SwitchSolver",
+                             "RxnArith", "RxnArith", "RxnArith", "Merge", "Merge">>
     [] Profile = "io" -> <<"RoundTrip", "RoundTrip", "RoundTrip", "AddReactions", "RemoveReactions", "RxnAddMetabolites",
                            "SetBounds", "SetBounds", "SetLB", "SetUB", "SetRule", "SetObjective", "SetObjCoef",
                            "SetDirection", "AddBoundary", "AddGroup", "Annotate", "RenameGene", "AddMetabolites">>
@@ -165,6 +166,7 @@ DrawOp(r, S) ==
     [] k = "SetUB" -> base @@ [r |-> rx, v |-> Pick(HiVals, d[8])]
     [] k = "SetBounds" -> base @@ [r |-> rx, lo |-> Pick(LoVals, d[8]), hi |-> Pick(HiVals, d[9])]
     [] k = "RxnKnockOut" -> base @@ [r |-> rx]
+    [] k = "RxnArith" -> base @@ [r |-> rx, q |-> rx2, kind |-> Pick(<<"copy", "add", "sub", "mul">>, d[8]), k |-> Pick(<<2, -1, 3, -2>>, d[9])]
     [] k = "DetachedSetBounds" -> base @@ [r |-> PickPresent(RxSeq, RxU \ C.rxns, d[3]), lo |-> Pick(LoVals, d[8]), hi |-> Pick(HiVals, d[9])]
     [] k = "SetRule" -> base @@ [r |-> rx, rule |-> Pick(RuleU, d[8]), form |-> d[9] % 2]
     [] k = "GeneKnockOut" -> base @@ [g |-> gn]
@@ -197,6 +199,7 @@ DrawOp(r, S) ==
     [] k = "RemoveGroup" -> base @@ [g |-> "grp1"]
     [] k = "Annotate" -> base @@ [x |-> Pick(<<rx, mt, gn>>, d[8]), v |-> 1 + (d[9] % 5), via |-> d[10] % 3]
     [] k = "Copy" -> [a |-> k, s |-> 1, t |-> 2, kind |-> Pick(<<"copy", "deepcopy", "pickle">>, d[8])]
+    [] k = "Merge" -> [a |-> k, s |-> s, t |-> 3 - s]
     [] k \in {"Enter", "Exit"} -> base
     [] k = "RoundTrip" -> base @@ [fmt |-> Pick(Formats, d[8])]
     [] k = "Analyze" -> base @@ [kind |-> Pick(AnalysisKinds, d[8]), arg |-> d[9] % 4]
